@@ -223,11 +223,20 @@ func runConcCase(t *testing.T, c *CCase) (scheds [][]string, lines []string, fin
 				<-ready
 			}
 			var schedule []string
+			ticked := false
 			for steps := 0; steps < 2000; steps++ {
 				synctest.Wait()
 				w := sc.waitingLabels()
 				if len(w) == 0 {
 					break
+				}
+				// at most once per phase a second of virtual time passes between two operations (less than every
+				// stale-while-revalidate timeout in use): what is recomputed later then differs from what was returned
+				if !ticked && steps > 0 && g.chance(0.12) {
+					ticked = true
+					time.Sleep(time.Second)
+					schedule = append(schedule, "t")
+					continue
 				}
 				pick := w[g.intn(len(w))]
 				schedule = append(schedule, pick)
@@ -350,7 +359,7 @@ func fnContent(r int, v string, g int64) string {
 func fnETag(r int, v string, g int64) string { return fmt.Sprintf(`"e-%d-%s-%d"`, r, v, g) }
 
 var fnPolicies = [4]string{
-	"max-age=0, stale-while-revalidate=600",
+	"max-age=0, stale-while-revalidate=600, stale-if-error=600",
 	"max-age=600",
 	"no-cache",
 	"max-age=0, must-revalidate",
@@ -363,6 +372,7 @@ func (o *fnOrigin) RoundTrip(req *http.Request) (*http.Response, error) {
 	v := req.Header.Get("X-V")
 	o.mu.Lock()
 	o.n++
+	n := o.n
 	if req.Method == "POST" && req.Header.Get("X-Bump") == "1" {
 		o.gen[r]++
 	}
@@ -377,6 +387,10 @@ func (o *fnOrigin) RoundTrip(req *http.Request) (*http.Response, error) {
 	}
 	h := http.Header{"Etag": {fnETag(r, v, g)}, "Cache-Control": {fnPolicies[r]}, "Vary": {"X-V"},
 		"X-Res": {fmt.Sprint(r)}, "X-Var": {v}, "X-Gen": {fmt.Sprint(g)}, "Date": {time.Now().UTC().Format(http.TimeFormat)}}
+	if inm := req.Header.Get("If-None-Match"); inm != "" && r == 0 && n%4 == 0 {
+		// a failing background validation of the stale-while-revalidate + stale-if-error resource
+		return mk(503, http.Header{"Content-Type": {"text/plain"}}, "unavailable"), nil
+	}
 	if inm := req.Header.Get("If-None-Match"); inm != "" && inm == fnETag(r, v, g) {
 		return mk(304, h, ""), nil
 	}
